@@ -136,3 +136,47 @@ Theorem C03_param_error_not_cached : forall f st id st' e,
   get_param f st id = (st', RErr e) -> lookup id (rt_pcache st') = lookup id (rt_pcache st).
 Proof. exact get_param_err_not_cached. Qed.
 Print Assumptions C03_param_error_not_cached.
+
+(** ---- end to end, across compile time and run time (Proofs/EscProofs.v): a parameter whose value is [escape x] - the string x
+    with every percent sign doubled - compiles, loads and evaluates to exactly x, whatever else x contains (quotes, backslashes,
+    newlines, any bytes; x may look like a service reference, a value expression or the container keyword) ---- *)
+From GV Require Import Proofs.EscProofs.
+
+Theorem C03_escaped_parameter_evaluates_to_itself : forall E : Env.env, Spec.Pipeline.std_env E ->
+  forall (B : str) (i : Input.input) (o : Compile.output) (c : Compile.cst) (envv : list (str * str)) (p x : str) (fuel : nat),
+    Runner.compile E B i = (o, None, c) ->
+    lookup p (Input.i_params i) = Some (Input.PStr (escape x)) ->
+    3 <= fuel ->
+    RT.get_param fuel (Load.load E o c envv) p = (cached (Load.load E o c envv) p x, RT.ROk (RT.VStr x)).
+Proof. exact ESC_param_end_to_end. Qed.
+Print Assumptions C03_escaped_parameter_evaluates_to_itself.
+
+(** the tokenizer sees only literal chunks and doubled-percent chunks in it, with no dependency *)
+Theorem C03_escaped_tokens : forall E : Env.env, Spec.Pipeline.std_env E -> forall fns, no_fn_claims_pct E fns -> forall (x : str) (st : Imports.ist),
+  exists toks, Token.tokenize E fns (escape x) st = (toks, None, st) /\
+    Forall (fun t => is_lit_token E t \/ is_pct_token E t) toks /\ concat (map denote toks) = x /\ flat_map Token.tk_depends toks = [].
+Proof. exact ESC_tokenize. Qed.
+Print Assumptions C03_escaped_tokens.
+
+(** as a service / decorator argument the same holds unless one of the earlier argument forms claims the string, and exactly then *)
+Theorem C03_escaped_argument_value : forall E : Env.env, Spec.Pipeline.std_env E ->
+  tpl_not_value (Env.k_tpl_dep_provider E) -> tpl_not_value (Env.k_tpl_dep_concat E) ->
+  forall depsf fns (i : Imports.ist) (c : Compile.cst) (x : str) (fuel : nat) (st : RT.rt) (b : RT.bag),
+    no_fn_claims_pct E (Compile.cs_fns c) -> caught_earlier E (escape x) = false -> 3 <= fuel ->
+    RT.resolve_dep depsf fuel st b (Load.rdep_of E fns i (fst (fst (Compile.resolve_arg E (Input.PStr (escape x)) c)))) = (st, b, RT.ROk (RT.VStr x)).
+Proof. exact ESC_arg_value. Qed.
+Print Assumptions C03_escaped_argument_value.
+
+Theorem C03_claimed_by_earlier_form_iff : forall (E : Env.env) (y : str),
+  caught_earlier E y = false <->
+  Re.site_match (Env.re_rs_valuePrefix E) y = false /\ Re.site_match (Env.re_rs_servicePrefix E) y = false /\
+  Re.site_match (Env.re_rs_taggedPrefix E) y = false /\ y <> s "$gontainer".
+Proof. exact caught_earlier_false. Qed.
+Print Assumptions C03_claimed_by_earlier_form_iff.
+
+(** for the regenerated environment the side conditions hold *)
+Theorem C03_escaped_parameter_the_env : forall (B : str) (i : Input.input) (o : Compile.output) (c : Compile.cst) (envv : list (str * str)) (p x : str) (fuel : nat),
+  Runner.compile Gen.EnvGen.the_env B i = (o, None, c) -> lookup p (Input.i_params i) = Some (Input.PStr (escape x)) -> 3 <= fuel ->
+  RT.get_param fuel (Load.load Gen.EnvGen.the_env o c envv) p = (cached (Load.load Gen.EnvGen.the_env o c envv) p x, RT.ROk (RT.VStr x)).
+Proof. exact the_env_param_end_to_end. Qed.
+Print Assumptions C03_escaped_parameter_the_env.
